@@ -522,6 +522,11 @@ func (a *analysis) checkRecovery(x *verifkit.Exec) {
 			if transientInRun == 0 && fatalInjected == "" {
 				fatalInjected, fatalInjectedSeq = "a processor error that the DLQ does not absorb (nack window tolerates no rejection)", e.Seq
 			}
+		case e.Comp == "proc" && e.Kind == "short" && alwaysShort(p):
+			// the processor leaves this record out every time it is asked: the retries cannot converge
+			if transientInRun == 0 && fatalInjected == "" {
+				fatalInjected, fatalInjectedSeq = "a processor that never returns a result for a record (non-converging)", e.Seq
+			}
 		case e.Comp == "dlq" && e.Kind == "runerr":
 			if transientInRun == 0 && fatalInjected == "" {
 				fatalInjected, fatalInjectedSeq = "a DLQ write failed (the DLQ connector failed while the record was written to it)", e.Seq
@@ -746,6 +751,18 @@ func restartedBefore(evs []verifkit.Event, from, to int) bool {
 	for _, e := range evs {
 		if e.Seq > from && e.Seq < to && isSource(e.Comp) && e.Kind == "open" {
 			return true
+		}
+	}
+	return false
+}
+
+// alwaysShort reports whether a processor of the scenario answers "short" (not "short once") for some record.
+func alwaysShort(p flowParams) bool {
+	for _, pr := range p.Procs {
+		for _, k := range pr.Kinds {
+			if k == "short" {
+				return true
+			}
 		}
 	}
 	return false
